@@ -1789,3 +1789,37 @@ def lobpcg_initial_space(mk, case):
         _pairs_ok(mk, f"lobpcg k={k}", A, lk, vk, np.sort(np.linalg.eigvalsh(A))[:k], tol=1e-5)
     else:
         mk.same("k pairs returned", (len(lk), tuple(vk.shape)), (k, (d, k)))
+
+
+# ---------------------------------------------------------------------- small wrappers around the solvers
+
+@obligation(PROP)
+def wrapper_return_conventions(mk):
+    """return / in-place conventions of thin wrappers: rsvd(compute_uv=False) returns only the values in every mode,
+    Lazy *= x keeps the object, IdentityLinearOperator.H acts with the conjugated factor"""
+    from quimb.linalg import rand_linalg as qrl
+    mk.encodes(qrl.rsvd, qbl.Lazy.__imul__, qbl.IdentityLinearOperator._rmatvec)
+    rng = np.random.default_rng(5)
+    A = rng.normal(size=(12, 9)) @ np.diag(0.5 ** np.arange(9)) @ rng.normal(size=(9, 9))
+    sref = np.linalg.svd(A, compute_uv=False)
+    for kw in (dict(eps_or_k=4), dict(eps_or_k=1e-3, mode="adapt"), dict(eps_or_k=1e-3, mode="adapt+block")):
+        s = qrl.rsvd(A, compute_uv=False, **kw)
+        mk.same(f"rsvd(compute_uv=False, {kw}) returns one array of values", isinstance(s, np.ndarray) and s.ndim == 1, True)
+        if isinstance(s, np.ndarray) and s.ndim == 1 and not mk.sym:
+            mk.eq(f"[numeric-only] rsvd(compute_uv=False, {kw}) == leading singular values", s[:3], sref[:3], tol=1e-3)
+        U, s2, VH = qrl.rsvd(A, compute_uv=True, **kw)
+        mk.same(f"rsvd(compute_uv=True, {kw}) returns a consistent triple", (U.shape[1], VH.shape[0]), (len(s2), len(s2)))
+    L = qbl.Lazy(lambda: np.eye(2), shape=(2, 2))
+    L0 = L
+    L *= 2.0
+    L *= 3.0
+    mk.same("Lazy *= x keeps the object", L is L0, True)
+    if L is L0:
+        mk.eq("Lazy *= 2; *= 3 denotes 6 * matrix", mk.const(np.asarray(L())), mk.const(6.0 * np.eye(2)))
+    z = mk.scalar("f", "cplx")
+    v = mk.array("v", (3,), "cplx")
+    I3 = qbl.IdentityLinearOperator(3, 1.0)
+    I3.factor = z if mk.sym else complex(z)
+    zc = z.conjugate() if mk.sym else np.conj(complex(z))
+    mk.eq("IdentityLinearOperator: matvec == f v", I3._matvec(v), v * z)
+    mk.eq("IdentityLinearOperator: rmatvec == conj(f) v", I3._rmatvec(v), v * zc)
